@@ -167,9 +167,9 @@ def run(ctx, only=None):
     mseqs = dc.gen_wakeseq_cases(ctx, 3 if ctx.quick() else 20, [N for N in msizes if N <= 101], prefix="ms")
     oseqs = dc.gen_wakeseq_cases(ctx, 140 if ctx.quick() else 2500, sizes, prefix="s")
     allc = mcases + ocases + [c for g in groups for c in g["cases"]]
-    ir = dc.run_impl(ctx, "".join(c.impl_text("wake") for c in allc))
+    ir = dc.run_impl(ctx, "".join(c.impl_text("wake") for c in allc), allc, "wake")
     ctx.log("implementation ran %d wake cases" % len(allc))
-    sr = dc.run_impl(ctx, "".join(c.impl_text("wakeseq") for c in mseqs + oseqs))
+    sr = dc.run_impl(ctx, "".join(c.impl_text("wakeseq") for c in mseqs + oseqs), mseqs + oseqs, "wakeseq")
     ncalls = 0
     mcalls, ocalls = [], []
     for lst, seqs in ((mcalls, mseqs), (ocalls, oseqs)):
@@ -252,6 +252,7 @@ def replay(ctx, rp):
     if c["kind"] == "wakeseq":
         # the recorded sequence of calls on one object; every call judged by the oracle and the model
         case.calls = [[fx(p) for p in profs] for profs in c["calls"]]
+        case.between = c.get("between")
         sr = dc.run_impl(ctx, case.impl_text("wakeseq"))
         cks = [case.call_case(k) for k in range(len(case.calls))]
         ir = {ck.cid: dc.call_record(sr[case.cid], k) for k, ck in enumerate(cks)}
